@@ -604,6 +604,8 @@ def gen_gen_history(seed):
     ops = []
     for _ in range(rng.randint(2, 7)):
         ops.append({"op": "featvxc", "ngrids": rng.choice([1, 3, 16, 57, 112, 200, 57, 16]), "cseed": rng.below(5), "nset": rng.choice([1, 1, 2]), "dm": rng.below(3), "save_buf": bool(rng.chance(0.5)), "vxc_twice": bool(rng.chance(0.3))})
+        if rng.chance(0.12):
+            ops[-1]["fault"] = draw_fault(rng, 200)
     return {"kind": "sdmxgen", "params": p, "ops": ops, "perturb": rng.choice(PERTURBS)}
 
 
@@ -900,14 +902,17 @@ def exec_sdmxgen_history(hist, rp):
             dms = pool[op["dm"]][0] if p["nspin"] == 1 else pool[op["dm"]]
         else:
             dms = np.concatenate([pool[op["dm"]], pool[(op["dm"] + 1) % 3]], axis=0)
-        dms = np.ascontiguousarray(dms)
+        dms = np.array(dms, copy=True, order="C")
+        dms_orig = dms.copy()
         b = adigest(dms, coords)
+        inj = FaultAt(op.get("fault"))
         try:
-            cao = gen.get_cao(mol, coords, save_buf=True) if op["save_buf"] else None
-            f = gen.get_features(dms, mol, coords, cao=cao)
-            vg = np.random.default_rng(7 + step).normal(size=f.shape)
-            vm = np.zeros(dms.shape)
-            gen.get_vxc_(vm, vg)
+            with inj:
+                cao = gen.get_cao(mol, coords, save_buf=True) if op["save_buf"] else None
+                f = gen.get_features(dms, mol, coords, cao=cao)
+                vg = np.random.default_rng(7 + step).normal(size=f.shape)
+                vm = np.zeros(dms.shape)
+                gen.get_vxc_(vm, vg)
             if op["vxc_twice"]:
                 vm2 = np.zeros(dms.shape)
                 gen.get_vxc_(vm2, vg)
@@ -915,14 +920,20 @@ def exec_sdmxgen_history(hist, rp):
                 if not ok:
                     V("repeat:EXXSphGenerator.get_vxc_:vmat", "step %d: second potential evaluation differs: %s" % (step, why))
         except Exception as ex:
+            if inj.fired:
+                # interrupted feature/potential pass: un-acknowledged; the generator lives on
+                stats["calls_interrupted_by_injected_failure"] += 1
+                stats["fault_site_" + inj.where] += 1
+                continue
             V("call-raises:EXXSphGenerator:%s" % type(ex).__name__, "step %d: %s" % (step, str(ex)[:200]))
             break
         if adigest(dms, coords) != b:
             V("input-mutated:EXXSphGenerator.get_features:dm-or-coords", "step %d" % step)
+        scribble(hist, stats, dms)
         # fresh generator, one call
         set_perturb(hist["perturb"] ^ 0x5A)
         g2 = EXXSphGenerator.from_settings_and_mol(st.sdmx_settings, p["nspin"], mol)
-        f2 = g2.get_features(dms.copy(), mol, coords.copy())
+        f2 = g2.get_features(dms_orig.copy(), mol, coords.copy())
         vm_ref = np.zeros(dms.shape)
         g2.get_vxc_(vm_ref, vg.copy())
         set_perturb(hist["perturb"])
